@@ -11,6 +11,7 @@ import (
 
 	mxj "github.com/clbanning/mxj/v2"
 	"github.com/clbanning/mxj/v2/j2x"
+	"github.com/clbanning/mxj/v2/x2j"
 	"pgregory.net/rapid"
 )
 
@@ -119,6 +120,10 @@ func genC12(t *rapid.T) CaseC12 {
 			nlen := rapid.IntRange(1, 3).Draw(t, "nlen")
 			for j := 0; j < nlen; j++ {
 				p.New = append(p.New, rapid.SampledFrom([]string{"n1", "n2", "n3", "q", "n1", "n2", "a", "b", "k", "list", "sub", "items"}).Draw(t, "nkey"))
+			}
+			if nlen >= 2 && !hasWildcard(p.Old) && rapid.IntRange(0, 5).Draw(t, "attrnew") == 0 {
+				// the last member of a new path may be an attribute key or the text key
+				p.New[nlen-1] = rapid.SampledFrom([]string{"-id", "#text", "-n"}).Draw(t, "attrkey")
 			}
 		}
 		c.Pairs = append(c.Pairs, p)
@@ -310,6 +315,31 @@ func checkC12(c CaseC12, info *Info) *Failure {
 				return failf("wrapper-mismatch", "j2x.JsonNewJson(%s, %q) = %s want %s", jb, pairs, out, canon(expected))
 			}
 		}
+		// the XML wrapper on the encoded document: what it returns stands for the Map that NewMap gives on the decoded
+		// document (content, as Maps; that its text is the core encoder's text is C20's clause)
+		if c.FieldSep == "" && c.Unrelated == 0 && !hasEmptyKeyOrOdd(c.Map) && len(c.Map) == 1 && !isListVal(c.Map) {
+			if xb, xerr := mxj.Map(copyMap(c.Map)).Xml(); xerr == nil {
+				if xm, derr := mxj.NewMapXml(xb); derr == nil {
+					var wantDoc []byte
+					wm, werr := xm.NewMap(pairs...)
+					if werr == nil {
+						wantDoc, werr = wm.Xml()
+					}
+					gotDoc, gerr := x2j.XmlNewXml(xb, pairs...)
+					same := (gerr == nil) == (werr == nil)
+					if same && gerr == nil {
+						gm, e1 := mxj.NewMapXml(gotDoc)
+						wm2, e2 := mxj.NewMapXml(wantDoc)
+						// values gathered through a wildcard come in map-iteration order: lists are compared as multisets
+						same = (e1 == nil) == (e2 == nil) && (e1 != nil || canon(sortLists(map[string]interface{}(gm))) == canon(sortLists(map[string]interface{}(wm2))))
+					}
+					if !same {
+						return failf("wrapper-mismatch", "x2j.XmlNewXml(%s, %q) = %s (%v); NewMapXml + NewMap + Xml gives %s (%v)", xb, pairs, gotDoc, gerr, wantDoc, werr)
+					}
+					info.Class("x2j.XmlNewXml compared")
+				}
+			}
+		}
 	} else {
 		info.Class("overlapping new paths (receiver clause only)")
 	}
@@ -369,4 +399,24 @@ func asList(v interface{}) []interface{} {
 		return l
 	}
 	return []interface{}{v}
+}
+
+// sortLists returns a copy of v in which every list is ordered by the canonical text of its members.
+func sortLists(v interface{}) interface{} {
+	switch x := v.(type) {
+	case map[string]interface{}:
+		out := make(map[string]interface{}, len(x))
+		for k, e := range x {
+			out[k] = sortLists(e)
+		}
+		return out
+	case []interface{}:
+		out := make([]interface{}, len(x))
+		for i, e := range x {
+			out[i] = sortLists(e)
+		}
+		sort.Slice(out, func(i, j int) bool { return canon(out[i]) < canon(out[j]) })
+		return out
+	}
+	return v
 }
